@@ -85,6 +85,9 @@ const SHAPES: &[&str] = &[
     "- W\n\n* > <div>W</div>\n\n- W\n",
     "> - >\n\nW\n",
     "1. W\n\n>\n\n1. W\n",
+    // item texts that begin with numerals outside ASCII; an item that carries nothing in front of numbered ones
+    "- ٣ W\n- ½ W\n\n1. １W\n2. ① W\n",
+    "- W\n  1. >\n  2. W\n",
 ];
 
 pub fn shapes(rng: &mut Rng, max: usize) -> String {
